@@ -224,6 +224,31 @@ func factAlternatives(f Fact) [][]Fact {
 	return alts
 }
 
+// holdsWithAlternatives: check holds for the facts, or the facts contain a disjunctive fact and check holds in
+// every one of its alternatives (each added to the facts).
+func holdsWithAlternatives(facts []Fact, check func([]Fact) bool) bool {
+	if check(facts) {
+		return true
+	}
+	for _, f := range facts {
+		alts := factAlternatives(f)
+		if alts == nil {
+			continue
+		}
+		all := true
+		for _, alt := range alts {
+			if !check(append(append([]Fact{}, facts...), alt...)) {
+				all = false
+				break
+			}
+		}
+		if all {
+			return true
+		}
+	}
+	return false
+}
+
 // someFact: test holds for one of the facts, or — for a disjunctive fact — in every one of its alternatives.
 func someFact(facts []Fact, test func(Fact) bool) bool { return someFactD(facts, test, 0) }
 
@@ -750,7 +775,6 @@ func loopVisitsAll(hdr, must *ssa.BasicBlock) bool {
 	}
 	return true
 }
-
 
 var cmpMirror = map[token.Token]token.Token{token.LSS: token.GTR, token.GTR: token.LSS, token.LEQ: token.GEQ, token.GEQ: token.LEQ, token.EQL: token.EQL, token.NEQ: token.NEQ}
 
